@@ -11,7 +11,9 @@ from vlib import sh, sh2, ROOT, REPO, COQ, CACHE, TieBroken
 
 PRESENTATION = [[], ["--with-derive-hash", "--with-derive-partialeq", "--with-derive-eq", "--with-derive-default", "--impl-debug"],
                 ["--no-derive-copy", "--no-derive-debug"], ["--default-enum-style", "rust", "--default-alias-style", "new_type"],
-                ["--explicit-padding"], ["--enable-cxx-namespaces"], ["--default-non-copy-union-style", "manually_drop", "--rust-target", "1.64"]]
+                ["--explicit-padding"], ["--enable-cxx-namespaces"], ["--default-non-copy-union-style", "manually_drop", "--rust-target", "1.64"],
+                # unions as structs of markers plus a blob (form (b) of C02/Union.v), with and without explicit padding
+                ["--disable-untagged-union"], ["--disable-untagged-union", "--explicit-padding"]]
 
 
 def feature_group(rec):
@@ -46,14 +48,15 @@ def run(ck):
     quick = ck.tier == "quick"
     ck.coverage["rule"] = ("generated struct/union types (scalars incl. long double and __int128, pointers, arrays, nested records, bit-field runs, packed / aligned(N) on types and members, "
                            "#pragma pack, flexible arrays) through the real bindgen; sizes, alignments and member offsets measured by rustc and by clang must coincide; 60% of the records are "
-                           "'plain' (no attribute, no bit-field) and have no known finding; the same header under 7 presentation option sets must give identical numbers; non-trivial = >= 2 members; "
+                           "'plain' (no attribute, no bit-field) and have no known finding; the same header under 9 presentation option sets (incl. --disable-untagged-union with and without --explicit-padding) must give identical numbers; non-trivial = >= 2 members; "
                            "distinct by record text")
     ck.trusted += ["clang 14 (x86_64 SysV) for sizeof/_Alignof/offsetof; rustc 1.95 for size_of/align_of/offset_of! of the emitted types (this also validates the repr(C) algorithm of C02/Model.v)",
                    "hook H3: StructLayoutTracker call trace",
-                   "modelled, not verified: CompInfo::codegen's attribute decisions beyond the plain struct path, union layout, bit-field unit allocation (ir/comp.rs), vtable/base handling — exercised end to end only"]
+                   "modelled, not verified: CompInfo::codegen's attribute decisions beyond the plain struct path and the two union forms (C02/Union.v), vtable/base handling — exercised end to end only; bit-field unit allocation is C03/Alloc.v"]
     proofs = os.path.exists(os.path.join(COQ, "theories", "C02", "Properties.v"))
     if proofs:
         vlib.coq_check_properties(ck, "theories/C02/Properties.v")
+        vlib.coq_check_properties(ck, "theories/C02/UnionProperties.v")
     else:
         ck.obligation("theories/C02/Properties.v", False, "missing")
         ck.broken("proof", "theories/C02/Properties.v", "file missing")
